@@ -482,6 +482,16 @@ pub fn gen_case(rng: &mut Rng, tier: &str, _profile: &str, stats: &mut Stats) ->
             let v = old[rng.below(old.len() as u64) as usize];
             ops.push(format!("vins {} {}", v, if rng.chance(1, 2) { a.clone() } else { b.clone() }));
         }
+        if rng.chance(1, 2) {
+            // voters of the first group vote in the other family as well (dual-stack peers): a vote is
+            // per family - their IPv4 votes are no younger for it
+            stats.bump("gen.case.timed-same-voters-other-family");
+            for v in old.iter() {
+                if rng.chance(3, 4) {
+                    ops.push(format!("vins {} {}", v, a6));
+                }
+            }
+        }
         ops.push("vmaj".into());
         if rng.chance(1, 2) {
             ops.push("vhas".into());
